@@ -297,6 +297,17 @@ func c10R4(c *Ctx) {
 			c.check(hit == nil, "deleteCreatedFiles/every-entry", c.pos(df.Pos()), "each recorded path is removed unless it no longer exists", "a recorded path can be skipped by the delete loop: stop-and-delete leaves files of this transfer behind", c.pathStr(path)...)
 		}
 	}
+	// what is reported as deleted: a path is put on the reported list only on the edge where its removal succeeded
+	for _, ci := range callsIn(df, idIs("builtin append")) {
+		if rm == nil {
+			break
+		}
+		rmErr := rm.(*ssa.Call)
+		good := factCmp(factsAt(ci.Block()), token.EQL, isValue(rmErr), isNilConst)
+		els, ok := sliceElems(ci.Common().Args[1])
+		same := ok && len(els) == 1 && sameValue(els[0].V, rmErr.Call.Args[0])
+		c.check(good && same, "deleteCreatedFiles/reported=removed", c.ipos(ci), "a path is reported as deleted only on the edge where removing that path succeeded", "a path is reported as deleted although its removal failed (or another path is reported)")
+	}
 	// writers of createdFiles
 	nw := 0
 	for _, f := range c.AllFns {
